@@ -83,9 +83,7 @@ func (sh *scriptHub) scriptOf(id string) ctScript {
 func (sh *scriptHub) addNode(cl *ckit.Cluster, s ckit.NodeSpec) {
 	o := cl.AddNodeOptions(s)
 	o.Endpoint = sh.endpoint(s.Name)
-	if _, err := cl.C.AddNode(cl.Ctx(), o); err != nil {
-		cl.T.Fatalf("AddNode %s: %v", s.Name, err)
-	}
+	addNodeOpts(cl, o)
 }
 
 type scriptEngine struct {
